@@ -47,6 +47,7 @@ def setup(ctx):
     ctx.require("monitor", "control_peer_saw_request", 12)
     ctx.require("monitor", "concurrent_batches", 4)
     ctx.require("monitor", "db_faults_fired", 6)
+    ctx.require("monitor", "reuse_after_context_calls", 2)
 
 
 class OrderMonitor:
@@ -194,10 +195,18 @@ def run(ctx):
                                 return await c.delete(url, token="SECRETTOKEN")
                             return await c.upload(url, content, mime_type="application/octet-stream", token="SECRETTOKEN")
 
+                        async def go_in_context():
+                            # first use inside `async with client:`; leaving the block must not weaken later calls
+                            c = client_box.get("c")
+                            if c is None:
+                                c = client_box["c"] = GeminiClient(timeout=6, trust_on_first_use=True, tofu_db_path=Path(dbp))
+                            async with c:
+                                return await go()
+
                         results = []
                         for _attempt in range(attempts):
                             try:
-                                resp = asyncio.run(go())
+                                resp = asyncio.run(go_in_context() if (_attempt == 0 and attempts > 1 and k % 4 < 2) else go())
                                 res = ("response", resp.status)
                             except CertificateChangedError:
                                 res = ("changed",)
@@ -266,6 +275,9 @@ def run(ctx):
                             os.unlink(dbp)
                         except OSError:
                             pass
+            # ---- one client object: successful call inside `async with`, certificate changes, client reused afterwards
+            if ctx.mine(k + 3):
+                run_reuse_after_context(ctx, peer, idents, state, tmp, mon)
             # ---- concurrent calls on one client
             if ctx.mine(k + 1):
                 run_concurrent(ctx, peer, idents, state, tmp, mon)
@@ -273,6 +285,67 @@ def run(ctx):
                 run_db_faults(ctx, peer, idents, state, tmp, mon)
     finally:
         shutil.rmtree(tmp, ignore_errors=True)
+
+
+def run_reuse_after_context(ctx, peer, idents, state, tmp, mon):
+    from cryptography import x509
+
+    from nauyaca.client.session import GeminiClient
+    from nauyaca.security.tofu import CertificateChangedError, TOFUDatabase
+
+    for op in ("get", "upload"):
+        for first in ("ok-in-context", "nothing-in-context"):
+            dbp = os.path.join(tmp, f"reuse-{op}-{first}.db")
+            TOFUDatabase(Path(dbp))
+            state.update(mode="eager", redirect_to=None)
+            state["go"].set()
+            peer.ident_for_connection = None
+            peer.swap_cert(idents["good"])
+            url = f"gemini://127.0.0.1:{peer.port}/reuse?q=SECRETQUERY"
+            client = GeminiClient(timeout=6, trust_on_first_use=True, tofu_db_path=Path(dbp))
+
+            async def call():
+                if op == "get":
+                    return await client.get(url)
+                return await client.upload(url, b"SECRET" * 30, mime_type="text/plain", token="SECRETTOKEN")
+
+            async def phase1():
+                async with client:
+                    if first == "ok-in-context":
+                        return await call()
+                return None
+
+            try:
+                asyncio.run(phase1())
+            except BaseException as e:  # noqa: BLE001
+                ctx.anomaly(f"reuse: control call failed {type(e).__name__}")
+            if first == "nothing-in-context":
+                # pin the good certificate through another handle
+                TOFUDatabase(Path(dbp)).trust("127.0.0.1", peer.port, x509.load_der_x509_certificate(idents["good"].der))
+            peer.wait_idle(3)
+            peer.swap_cert(idents["other"])
+            n0 = len(peer.log)
+            mon.take()
+            try:
+                resp = asyncio.run(call())
+                res = ("response", resp.status)
+            except CertificateChangedError:
+                res = ("changed",)
+            except BaseException as e:  # noqa: BLE001
+                res = ("error", type(e).__name__)
+            events = mon.take()
+            peer.wait_idle(3)
+            received = b"".join(r["received"] for r in peer.log[n0:])
+            ctx.count("monitor", "calls")
+            ctx.count("monitor", "failed_verifications")
+            ctx.count("monitor", "reuse_after_context_calls")
+            wit = {"operation": op, "first_phase": first, "result": res, "peer_received_len": len(received), "peer_received_head": received[:100], "client_events": [list(map(str, e)) for e in events[:8]]}
+            if received:
+                ctx.violation(f"peer-received-bytes:entry={op}:pin=changed:client-reused-after-context-exit",
+                              f"a client object reused after leaving its `async with` block sent {len(received)} bytes to a peer whose certificate differs from the pin", wit)
+            elif res[0] == "response":
+                ctx.undecided("reuse: verification did not fail (see C03)")
+            ctx.case(("reuse-after-context", op, first, res[0], bool(received)), True, sample=wit)
 
 
 class DbFault:
